@@ -1,4 +1,5 @@
--- expect-wf: bad no loop to break
+-- expect-wf[jit]: bad no loop to break
+-- expect-wf[5.3]: bad break outside a loop
 while true do
   local function f() break end
   f()
